@@ -203,6 +203,7 @@ Ibm == /\ Is("ibm")
               exp == SelectSeq([i \in 1..Len(parts) |-> [parts[i] EXCEPT !.age = @ + 1, !.alive = ~Killed(parts[i].pid), !.active = @ /\ ~Frozen(parts[i].pid)]], LAMBDA r : r.alive)
           IN /\ Mark(All(<<Check("ibm.pc", pc = "ibm"),
                            Check("ibm.step", Ev.step = step),
+                           Check("ibm.module_given_by_path_runs", Ev.token = S.token),
                            Check("ibm.sees_moved_state", pre = parts),
                            Check("ibm.once_per_step", post = exp)>> \o SnapInv(Ev.post)))
              /\ parts' = post
